@@ -1,6 +1,6 @@
 (** C01 -- adjoint identity <A x, y> = <x, A^H y> for every linear operator. *)
 From Coq Require Import List Bool QArith Qcanon Reals.
-From SV Require Import Base.InnerSpace LinAlg.Mat LinAlg.RQ LinAlg.CQ LinAlg.RelCheck LinAlg.AdjCalc LinAlg.CInst LinAlg.MExpr.
+From SV Require Import Base.InnerSpace LinAlg.Mat LinAlg.RQ LinAlg.CQ LinAlg.RelCheck LinAlg.AdjCalc LinAlg.AdjStack LinAlg.CInst LinAlg.MExpr.
 Import ListNotations.
 
 (** (1) Matrix of the adjoint = transpose of the matrix of the operator (realified spaces: this is
@@ -58,6 +58,20 @@ Proof.
   - intros; now apply good_gram.
 Qed.
 Print Assumptions C01_combinators_preserve_adjointness.
+
+(** (3b) stacks: the hand-written adjoints of VerticalStack (sum of the block adjoints) and of
+    DiagonalStack / DiagonalReplicated (block-wise adjoints) are true adjoints on the product space *)
+Theorem C01_stacks_have_true_adjoints :
+  (forall (X Y1 Y2 : CSpace) (A : Op X Y1) (B : Op X Y2), Good A -> Good B -> Good (op_vstack A B)) /\
+  (forall (X1 X2 Y1 Y2 : CSpace) (A : Op X1 Y1) (B : Op X2 Y2), Good A -> Good B -> Good (op_dstack A B)) /\
+  (forall (X Y : CSpace) (A : Op X Y), Good A -> Good (op_dstack A A)).
+Proof.
+  refine (conj _ (conj _ _)).
+  - intros; now apply good_vstack.
+  - intros; now apply good_dstack.
+  - intros; now apply good_replicated.
+Qed.
+Print Assumptions C01_stacks_have_true_adjoints.
 
 (** (4) for real operators (commuting with conjugation) transpose and adjoint coincide *)
 Theorem C01_real_transpose_is_adjoint :
